@@ -3,7 +3,7 @@ from engine.driver import poly as P
 from engine.driver.core import Ob, eq, eqs
 from engine.driver.encode import Constraint
 from spec import catalogue as cat
-from spec.treeutil import LA, cleared
+from spec.treeutil import LA, cleared, tier_caps, cap_sets
 
 ID = "C15"
 HARNESS = "C15_aggregates.cpp"
@@ -16,19 +16,19 @@ EXPLANATION = ("calcSystemMass, calcSystemMassCenterLocation/Velocity/Accelerati
                "and getBodyMassProperties, and every aggregate is proved equal to its sum (mass-centre quantities after multiplying through by "
                "the total mass); linear momentum = total mass * mass-centre velocity; central momentum = momentum about Ground shifted to the mass centre.")
 BOUNDS = ("tree catalogue (spec/catalogue.py): all built-in mobilizers forward/reversed, quaternion/Euler, 1-3 bodies quick (5 thorough); "
-          "u, udot and all body masses free; k free coordinates at a time (1 quick / 2 thorough); mass centres, gyration parameters, frames and the remaining coordinates "
-          "pinned at exact rational base points (2 quick / 6 thorough); fallback to u, udot free only (masses pinned too) when the encoder's term limit is exceeded; the library's mass-property validity tests (mass >= 0 etc.) are path-condition literals")
+          "u, udot and all body masses free; k free coordinates at a time (1 quick / 2 thorough; up to 3 quick / 6 thorough choices per base point); mass centres, gyration parameters, frames and the remaining coordinates "
+          "pinned at exact rational base points (2 quick / 4 thorough); fallback to u, udot free only (masses pinned too) when the encoder's term limit is exceeded; the library's mass-property validity tests (mass >= 0 etc.) are path-condition literals")
 NOT_COVERED = ("per-state (Instance-stage) mass property changes: this Simbody version has no Instance-stage body mass variable; trees beyond the "
                "catalogue; more than k simultaneously free coordinates; Ground's own composite inertia entry; float; rounding")
 
 
 def instances(tier, seed):
-    return cat.tree_instances(tier, seed, "C15")
+    return tier_caps(cat.tree_instances(tier, seed, "C15"), tier)
 
 
 def free_sets(inst, tr, tier, rng):
     masses = [n for n, kind, _, _ in tr.inputs if n.startswith("b") and n.endswith("_m")]
-    return [fs + masses for fs in cat.coordinate_free_sets(inst, tr, tier, rng, always=("u", "a_"))]
+    return [fs + masses for fs in cap_sets(cat.coordinate_free_sets(inst, tr, tier, rng, always=("u", "a_")), tier)]
 
 
 def obligations(enc, inst, tr):
